@@ -1,15 +1,28 @@
 //! Password alphabets for C14/C15 (DESIGN 4/C14 G): empty, ASCII, BMP, non-BMP, up to 255
-//! UTF-16 code units ([MS-OFFCRYPTO] 2.3.4.11: "MUST NOT be longer than 255 characters").
+//! CHARACTERS (the statement's quantifier: "up to 255 characters").  A character outside the
+//! BMP takes two UTF-16 code units, so a legal password can be up to 510 code units / 1020
+//! bytes long in the form that is hashed; the strata below put passwords on both sides of
+//! 255 code units, of 255 UTF-16 bytes and of 255 UTF-8 bytes.
 use proptest::prelude::*;
 use proptest::strategy::BoxedStrategy;
+
+pub const MAX_CHARS: usize = 255;
 
 pub fn pw_char() -> BoxedStrategy<char> {
     prop_oneof![
         10 => prop::char::range(' ', '~'),
         3 => prop::sample::select(vec!['é', 'ß', 'Ω', 'Ж', 'א', '日', '本', '한', '\u{3000}', '\u{a0}', '\u{301}', 'ı', 'İ', '\u{ff21}']),
-        2 => prop::sample::select(vec!['😀', '𠀋', '🧪', '\u{10000}', '\u{10FFFF}', '\u{1F468}']),
+        2 => nonbmp_char(),
         1 => prop::char::range('\u{a1}', '\u{d7ff}'),
         1 => prop::char::range('\u{e000}', '\u{fffd}'),
+    ]
+    .boxed()
+}
+
+pub fn nonbmp_char() -> BoxedStrategy<char> {
+    prop_oneof![
+        3 => prop::sample::select(vec!['😀', '𠀋', '🧪', '\u{10000}', '\u{10FFFF}', '\u{1F468}', '\u{1F511}', '\u{10400}']),
+        1 => prop::char::range('\u{10000}', '\u{10FFFF}'),
     ]
     .boxed()
 }
@@ -32,8 +45,54 @@ pub fn cut_units(s: &str, max: usize) -> String {
     out
 }
 
+/// Cuts at a character boundary so that the UTF-8 length is at most `max` bytes.
+pub fn cut_utf8(s: &str, max: usize) -> String {
+    let mut out = String::new();
+    for c in s.chars() {
+        if out.len() + c.len_utf8() > max {
+            break;
+        }
+        out.push(c);
+    }
+    out
+}
+
+pub fn cut_chars(s: &str, max: usize) -> String {
+    s.chars().take(max).collect()
+}
+
 fn chars_to_string(v: Vec<char>) -> String {
     v.into_iter().collect()
+}
+
+/// Long passwords (128..=255 characters) with any share of non-BMP characters: up to 510
+/// UTF-16 code units.
+fn long_mixed() -> BoxedStrategy<String> {
+    let ch = |w_nonbmp: u32| prop_oneof![10 => prop::char::range('a', 'z'), 2 => prop::sample::select(vec!['é', '日', 'Ж']), w_nonbmp => nonbmp_char()].boxed();
+    prop_oneof![
+        // around 255 code units exactly: n characters, k of them non-BMP, n + k in 253..=258
+        3 => (128usize..=255, 253usize..=258, nonbmp_char(), any::<u8>()).prop_map(|(n, units, c, rot)| {
+            let k = units.saturating_sub(n).min(n);
+            // k non-BMP characters spread by a rotation, the rest ASCII
+            let mut v: Vec<char> = (0..n).map(|i| if i < k { c } else { (b'a' + (i % 26) as u8) as char }).collect();
+            let r = rot as usize % n;
+            v.rotate_left(r);
+            chars_to_string(v)
+        }),
+        // the shapes of the seeded demo: 'a' + 127 emoji + 'b' (256 units), 128 emoji, 255 emoji (510 units)
+        2 => prop::sample::select(vec![(1usize, 127usize, 1usize), (0, 128, 0), (0, 255, 0), (1, 127, 0), (0, 200, 55), (127, 64, 0), (100, 100, 55)]).prop_flat_map(|(a, e, b)| {
+            nonbmp_char().prop_map(move |c| {
+                let mut s = "a".repeat(a);
+                s.extend(std::iter::repeat(c).take(e));
+                s.push_str(&"b".repeat(b));
+                s
+            })
+        }),
+        2 => prop::collection::vec(ch(3), 128..=255).prop_map(chars_to_string),
+        2 => prop::collection::vec(ch(30), 128..=255).prop_map(chars_to_string),
+        1 => prop::collection::vec(nonbmp_char(), 128..=255).prop_map(chars_to_string),
+    ]
+    .boxed()
 }
 
 /// `allow_empty`: include the empty password (the library's API accepts it).
@@ -48,12 +107,13 @@ pub fn password(allow_empty: bool) -> BoxedStrategy<String> {
         4 => prop::collection::vec(pw_char(), 1..=20).prop_map(chars_to_string),
         2 => prop::collection::vec(pw_char(), 16..=64).prop_map(chars_to_string),
         1 => prop::collection::vec(pw_char(), 128..=255).prop_map(chars_to_string),
-        1 => prop::sample::select(vec![255usize, 254, 129, 128, 127, 65, 64, 63, 33, 32, 31]).prop_map(|n| {
+        1 => prop::sample::select(vec![255usize, 254, 129, 128, 127, 86, 85, 84, 65, 64, 63, 33, 32, 31]).prop_map(|n| {
             (0..n).map(|i| (b'a' + (i % 26) as u8) as char).collect::<String>()
         }),
         1 => (prop::sample::select(vec!['😀', '𠀋', '日', 'é']), 100usize..=255).prop_map(|(c, n)| std::iter::repeat(c).take(n).collect::<String>()),
+        3 => long_mixed(),
     ]
-    .prop_map(|s| cut_units(&s, 255))
+    .prop_map(|s| cut_chars(&s, MAX_CHARS))
     .boxed();
     if allow_empty {
         prop_oneof![1 => Just(String::new()), 16 => nonempty].boxed()
@@ -66,6 +126,9 @@ pub fn password(allow_empty: bool) -> BoxedStrategy<String> {
 pub fn pw_class(s: &str) -> &'static str {
     if s.is_empty() {
         "empty-password"
+    } else if utf16_len(s) > 255 {
+        // at most 255 characters, but more than 255 UTF-16 code units
+        "over255units-password"
     } else if s.chars().any(|c| (c as u32) > 0xffff) {
         "nonbmp-password"
     } else if !s.is_ascii() {
@@ -77,12 +140,60 @@ pub fn pw_class(s: &str) -> &'static str {
     }
 }
 
+/// Another character with the same UTF-16 high surrogate (non-BMP) / a neighbour (BMP).
+fn sibling(c: char) -> char {
+    let u = c as u32;
+    let cand = if u > 0xffff { u ^ 1 } else if c == 'x' { 'y' as u32 } else { 'x' as u32 };
+    char::from_u32(cand).unwrap_or('x')
+}
+
+fn replace_last(pw: &str) -> String {
+    let mut v: Vec<char> = pw.chars().collect();
+    if let Some(l) = v.last_mut() {
+        *l = sibling(*l);
+    }
+    v.into_iter().collect()
+}
+
+/// The longest prefix of `pw` of at most `max` UTF-16 units; when the cut falls inside a
+/// surrogate pair, a different character with the same high surrogate is appended, so the
+/// result agrees with `pw` on exactly the first `max` code units.
+fn prefix_units_sharing(pw: &str, max: usize) -> String {
+    let mut out = String::new();
+    let mut n = 0;
+    for c in pw.chars() {
+        let l = c.len_utf16();
+        if n + l > max {
+            if n + 1 == max && l == 2 {
+                out.push(sibling(c));
+            }
+            break;
+        }
+        n += l;
+        out.push(c);
+    }
+    out
+}
+
+pub const WRONG_MODES: u8 = 12;
+
 /// A password different from `pw`, built from it (near misses are the interesting wrong
-/// passwords: case, one character more/less, lossy transcodings).  Always `!= pw`, at
-/// most 255 UTF-16 units unless `pw` already is 255 long and the mode appends.
+/// passwords: case, one character more/less, lossy transcodings, and — for long passwords —
+/// strings that agree with `pw` on the first 255 UTF-16 units / 255 UTF-16 bytes / 255 UTF-8
+/// bytes and differ only behind that point).  Always `!= pw`, at most 255 characters.
 pub fn wrong_of(pw: &str, mode: u8) -> String {
-    let cand = match mode % 7 {
-        0 => format!("{}x", cut_units(pw, 254)),
+    let nchars = pw.chars().count();
+    let long = utf16_len(pw) > 127;
+    // long passwords: two thirds of the modes are the truncation near-misses
+    let m = if long { [7u8, 8, 9, 10, 7, 11, 0, 1, 7, 8, 2, 6][(mode % WRONG_MODES) as usize] } else { mode % 7 };
+    let cand: String = match m {
+        0 => {
+            if nchars < MAX_CHARS {
+                format!("{}x", pw)
+            } else {
+                replace_last(pw)
+            }
+        }
         1 => {
             let mut c: Vec<char> = pw.chars().collect();
             c.pop();
@@ -112,26 +223,32 @@ pub fn wrong_of(pw: &str, mode: u8) -> String {
             // the UTF-8 bytes read as Latin-1 (a typical transcoding slip)
             pw.bytes().map(|b| b as char).collect::<String>()
         }
-        _ => {
-            if pw.chars().count() > 15 {
+        6 => {
+            if nchars > 15 {
                 pw.chars().take(15).collect()
             } else {
                 pw.chars().rev().collect()
             }
         }
+        // agrees with pw on the first 255 UTF-16 code units, nothing behind them
+        7 => prefix_units_sharing(pw, 255),
+        // differs from pw only in its last character (behind any truncation point of a long password)
+        8 => replace_last(pw),
+        // agrees on the first 255 bytes of the UTF-16LE form (127 code units + half of one)
+        9 => prefix_units_sharing(pw, 127),
+        // agrees on the first 255 UTF-8 bytes
+        10 => cut_utf8(pw, 255),
+        // agrees on the first 256 UTF-16 code units (off-by-one of the limit)
+        _ => prefix_units_sharing(pw, 256),
     };
-    let cand = cut_units(&cand, 255);
+    let cand = cut_chars(&cand, MAX_CHARS);
     if cand != pw {
         cand
     } else if pw.is_empty() {
         " ".to_string()
+    } else if nchars < MAX_CHARS {
+        format!("{}x", pw)
     } else {
-        let base = cut_units(pw, 254);
-        let alt = format!("{}x", base);
-        if alt != pw {
-            alt
-        } else {
-            format!("{}y", base)
-        }
+        replace_last(pw)
     }
 }
